@@ -352,17 +352,20 @@ EXPLAIN += [
         'congruence over a child class with a symmetry of order 3 that the parent class inherits (determine_self_symmetries)'),
 ]
 EXPLAIN += [
-    _ex('E10', 'Lf', 3, [add(h(0, 1, 2)), add(h(1, 2, 0)), unionj(h(0, 1, 2), h(1, 2, 0), 'rot'), add(w(0, 1, 2, 2)),
-                         unionj(w(0, 1, 2, 2), h(0, 1, 2), 'wh'), explain(w(0, 1, 2, 2), w(1, 2, 0, 0)), explain(w(2, 0, 1, 1), h(0, 1, 2))],
-         'a class with a symmetry of order 3 is merged with another class afterwards: the generators and their proofs are transported (move_to)'),
-    _ex('E10~flip', 'Lf', 3, [add(h(0, 1, 2)), add(h(1, 2, 0)), unionj(h(0, 1, 2), h(1, 2, 0), 'rot'), add(w(0, 1, 2, 2)), add(w(2, 0, 1, 1)), add(w(1, 2, 0, 0)),
-                              unionj(h(0, 1, 2), w(0, 1, 2, 2), 'hw'), explain(w(0, 1, 2, 2), w(1, 2, 0, 0)), explain(w(2, 0, 1, 1), h(0, 1, 2))],
-         'the same with the other class larger and the union flipped, so that the symmetric class is the one that moves'),
+    _ex('E12', 'Lb', 3, [add(u(s3(0, 1, 2))), add(s3(2, 0, 1)), add(t3(0, 1, 2)), add(t3(1, 2, 0)), unionj(t3(0, 1, 2), t3(1, 2, 0), 'rot'), unionj(t3(0, 1, 2), s3(2, 0, 1), 'ts'), explain(s3(0, 1, 2), s3(1, 2, 0)), explain(t3(0, 1, 2), s3(0, 1, 2))],
+         'the class with the order-3 symmetry is the smaller one and is merged INTO a class that has a parent, under a non-identity slot correspondence: its generators and their proofs are transported (move_to)'),
+    _ex('E13', 'Lf', 3, [add(f(0, 1)), add(f(0, 2)), unionj(f(0, 1), f(0, 2), 'red'), explain(f(0, 1), f(0, 2))],
+        'a redundant slot on a class that stays its own leader: the equation between two instances that differ in the redundant argument', ordered=[[0, 1, 2]]),
+    _ex('E14', 'Lb', 2, [add(u(app(var(0), var(1)))), rewrite(rule('comm', app('?a', '?b'), app('?b', '?a'))), explain(app(var(0), var(1)), app(var(1), var(0))), explain(u(app(var(1), var(0))), u(app(var(0), var(1))))],
+        'a rule application as a leaf (justified by the rule name), used below a congruence step'),
     _ex('E11', 'Lf', 3, [add(h(0, 1, 2)), add(h(1, 0, 2)), unionj(h(0, 1, 2), h(1, 0, 2), 's01'), add(h(0, 2, 1)), unionj(h(0, 1, 2), h(0, 2, 1), 's12'), explain(h(0, 1, 2), h(1, 2, 0)), explain(h(0, 1, 2), h(2, 0, 1)),
                          explain(h(0, 1, 2), h(2, 1, 0))],
          'a non-abelian symmetry group (S3 from two transpositions): products in both orders'),
 ]
 EXPLAIN_THOROUGH = [
+    _ex('E10', 'Lf', 3, [add(h(0, 1, 2)), add(h(1, 2, 0)), unionj(h(0, 1, 2), h(1, 2, 0), 'rot'), add(w(0, 1, 2, 2)),
+                         unionj(w(0, 1, 2, 2), h(0, 1, 2), 'wh'), explain(w(0, 1, 2, 2), w(1, 2, 0, 0)), explain(w(2, 0, 1, 1), h(0, 1, 2))],
+         'a class with a symmetry of order 3 is merged with another class afterwards: the generators and their proofs are transported (move_to)'),
     _ex('E4', 'Lb', 3, [add(u(k(0, 1))), add(u(j(0, 1))), unionj(k(0, 1), j(0, 1), 'kj'), explain(lam(1, u(j(1, 0))), lam(2, u(k(2, 0))))],
         'congruence under binders with different bound names (alpha-variants)'),
     _ex('E7', 'Lf', 3, [add(f(0, 1)), add(f(0, 2)), unionj(f(0, 1), f(0, 2), 'red'), explain(f(0, 1), f(0, 2)), explain(f(1, 0), f(1, 2))],
